@@ -47,7 +47,9 @@ def read_conf():
             m = re.match(r"#\s*ignorepatt\s*=\s*(\S+)\s*$", line)
             if m:
                 buck = m.group(1)
-    return {"shipped": shipped, "buck": buck, "handlers": handlers,
+    import ast
+    eaexts = list(ast.literal_eval(cp.get("GopherEntry", "eaexts")).keys())
+    return {"shipped": shipped, "buck": buck, "handlers": handlers, "eaexts": eaexts,
             "cachefile": cp.get("handlers.dir.DirHandler", "cachefile")}
 
 
@@ -156,6 +158,7 @@ def data_module(conf=None) -> str:
     lines.append(",\n".join("  %s |-> [handler |-> %s, mbox |-> %s, html |-> %s, buck |-> %s]"
                             % (k, tla_str(v["handler"]), b(v["mbox"]), b(v["html"]), b(v["buck"])) for k, v in lists.items()))
     lines.append("]")
+    lines.append("DataEaExts == <<%s>>" % ", ".join(tla_str(x) for x in conf["eaexts"]))
     lines.append("DataProbes == {")
     lines.append(",\n".join("  [name |-> %s, kind |-> %s, core |-> %s]" % (tla_str(n), tla_str(k), b(c)) for n, k, c in probe_names(pats)))
     lines.append("}")
@@ -616,6 +619,38 @@ def pool_map(fn, items, init_fn, procs=None, timeout=3000):
     if bad:
         raise core.MachineryError("worker failed:\n" + bad[0])
     return [r[1] for r in res]
+
+
+def validate_parallel(module, cfg, traces, extra_files=None, jobs=None, chunk=3000, timeout=3000):
+    """tlc.validate_traces over slices of the trace list, several TLC processes at a time (each validates its
+    slice exactly as one sequential call would); results merged with global indices."""
+    from concurrent.futures import ThreadPoolExecutor
+    from harness import tlc
+    jobs = jobs or max(1, min(6, int(os.environ.get("VERIF_PROCS") or 16) // 2))
+    slices = [(off, traces[off:off + chunk]) for off in range(0, len(traces), chunk)] or [(0, [])]
+
+    def one(sl):
+        off, part = sl
+        tv = tlc.validate_traces(module, cfg, part, extra_files=extra_files, chunk=chunk, timeout=timeout)
+        for r in tv["rejected"]:
+            r["index"] += off
+        for dr in tv["drift"]:
+            dr["index"] += off
+        return tv
+
+    with ThreadPoolExecutor(jobs) as ex:
+        parts = list(ex.map(one, slices))
+    out = {"accepted": 0, "rejected": [], "drift": [], "states": 0, "generated": 0, "wall_s": 0.0, "cmd": ""}
+    for tv in parts:
+        out["accepted"] += tv["accepted"]
+        out["rejected"] += tv["rejected"]
+        out["drift"] += tv["drift"]
+        out["states"] += tv["states"]
+        out["generated"] += tv["generated"]
+        out["wall_s"] += tv["wall_s"]
+        out["cmd"] = tv["cmd"] or out["cmd"]
+    out["rejected"].sort(key=lambda r: r["index"])
+    return out
 
 
 def permutations(names):
